@@ -278,3 +278,19 @@ func xstarRaw() {
 		}
 	})
 }
+
+// RaceBodies: topologies re-run by C11 under the race-instrumented build.
+func RaceBodies() map[string]func() {
+	B, S, XB := ctor(bus.NewSocket), ctor(star.NewSocket), ctor(xbus.NewSocket)
+	others := func(s, r int) bool { return s != r }
+	mesh := &topo{name: "bus-mesh-3", ctors: []ctor{B, B, B}, edges: [][2]int{{1, 0}, {2, 0}, {2, 1}}, senders: []int{0, 1, 2}, expect: others}
+	fwd := &topo{name: "bus-raw-forwarder", ctors: []ctor{B, XB, B, B}, edges: [][2]int{{0, 1}, {2, 1}, {3, 1}}, device: []int{1}, senders: []int{0, 2}, raw: map[int]bool{1: true},
+		expect: func(s, r int) bool { return r != 1 && s != r }}
+	hub := &topo{name: "star-hub-2-leaves", ctors: []ctor{S, S, S}, edges: [][2]int{{1, 0}, {2, 0}}, senders: []int{0, 1, 2}, expect: others}
+	return map[string]func(){
+		"c08-bus-mesh-3":                 func() { run(mesh, false) },
+		"c08-bus-raw-forwarder":          func() { run(fwd, true) },
+		"c08-star-hub-receivers-waiting": func() { run(hub, true) },
+		"c08-xstar-raw":                  xstarRaw,
+	}
+}
